@@ -207,7 +207,7 @@ impl std::io::Read for BScriptReader {
                 self.pos += n;
                 Ok(n)
             }
-            1 => Err(std::io::Error::from(kind_of(a))),
+            1 => Err(make_err(a)),
             2 => panic!("scripted reader panic"),
             _ => Err(std::io::Error::from(std::io::ErrorKind::WouldBlock)),
         }
